@@ -32,6 +32,7 @@ def check(ctx):
     specs(ctx, s)
     precedence(ctx, repo)
     result_type(ctx, repo)
+    kernel_functions(ctx, repo)
     from .c01 import index_spaces
 
     index_spaces(ctx, repo, "IX")
@@ -414,3 +415,29 @@ def return_annotation_sites(ctx, repo, rid):
         ctx.ob(rid, ok=ok, distinct=("site", st.lineno))
         if not ok:
             ctx.violation(rid, f"annotation-site|{ast.unparse(st.value)[:60]}", fl.loc(st) + " _annotations_for_aggregation", f"`{ast.unparse(st)[:90]}` types the aggregate without the result-type rule: a sum over a boolean source is declared bool (a supplied count column is then rejected or cut to True/False), any/all over integers int")
+
+
+def kernel_functions(ctx, repo):
+    """S-kernel: the numpy kernel named grouped_<k> reduces with the numpy_groupies function of that name
+    (count = sum of ones).  `any` via max and `all` via min agree with the definition only for non-negative
+    columns; the definition quantifies over every admissible column (integers included)."""
+    ctx.rule("S-kernel", "every numpy_groupies.aggregate call in grouped_<k> passes func='<k>' (grouped_count: 'sum' over ones)")
+    an = repo.module("aggregation_numpy.py")
+    n = 0
+    for name, fd in an.functions.items():
+        if not name.startswith("grouped_"):
+            continue
+        k = name[len("grouped_"):]
+        calls = [c for c in ast.walk(fd) if isinstance(c, ast.Call) and ast.unparse(c.func).split(".")[-1] == "aggregate"]
+        if not calls:
+            raise AnalysisError(f"{name}: no aggregate call found; S-kernel needs a re-read")
+        for c in calls:
+            f = next((kw.value for kw in c.keywords if kw.arg == "func"), c.args[2] if len(c.args) > 2 else None)
+            fv = f.value if isinstance(f, ast.Constant) else None
+            want = "sum" if k == "count" else k
+            ok = fv == want
+            n += 1
+            ctx.ob("S-kernel", ok=ok, distinct=(name, c.lineno))
+            if not ok:
+                ctx.violation("S-kernel", f"{name}|func={fv}", an.loc(c) + f" {name}", f"{name} reduces with func={fv!r} instead of {want!r}: for columns with negative integers `max`/`min` and `any`/`all` differ (a group {{-1, 0}} has any = True, max = 0)")
+    ctx.floor("S-kernel", 7)
